@@ -1004,6 +1004,111 @@ def valve_internal_nodes(inp):
     return {"ok": witness is None, "cases": cases, "witness": witness}
 
 
+def prescribed_values(inp):
+    """property C03 natively: after a converged calculation every prescribed value is met by the reported results
+    (tolerances: 1e-6 bar / 1e-7 kg/s for values imposed by identity rows, 1e-4 relative for lifts at convergence)"""
+    import pandapipes as pp
+    cases, witness = 0, None
+
+    def chk(tag, cond, what):
+        nonlocal witness
+        if not cond and witness is None:
+            witness = {"net": tag, "observed": what}
+
+    def run(tag, net, checks, **kw):
+        nonlocal cases
+        cases += 1
+        try:
+            pp.pipeflow(net, **kw)
+        except Exception as e:  # noqa
+            chk(tag, type(e).__name__ == "PipeflowNotConverged" and False, "%s: %s" % (type(e).__name__, str(e)[:160]))
+            return
+        for what, got, want, tol in checks(net):
+            chk(tag + "/" + str(kw), abs(got - want) <= tol, "%s: reported %.9g, prescribed %.9g" % (what, got, want))
+
+    # 1. water net: two ext grids at one junction (mean), one out of service, flow control, loads with scaling
+    def water(use_numba):
+        net = pp.create_empty_network(fluid="water")
+        j = list(pp.create_junctions(net, 6, pn_bar=4., tfluid_k=300., index=[7, 3, 12, 5, 9, 1]))
+        pp.create_ext_grid(net, j[0], p_bar=5.0, t_k=300., type="pt")
+        pp.create_ext_grid(net, j[0], p_bar=5.4, type="p")
+        pp.create_ext_grid(net, j[0], p_bar=9.0, type="p", in_service=False)
+        pp.create_pipe_from_parameters(net, j[0], j[1], 0.3, 100., sections=2)
+        pp.create_flow_control(net, j[1], j[2], 0.8)
+        pp.create_flow_control(net, j[1], j[3], 0.5, control_active=False)
+        pp.create_pipe_from_parameters(net, j[2], j[4], 0.2, 80.)
+        pp.create_pipe_from_parameters(net, j[3], j[4], 0.2, 80.)
+        pp.create_pressure_control(net, j[4], j[5], j[5], 2.5)
+        pp.create_sink(net, j[5], 0.6, scaling=1.5)
+        pp.create_sink(net, j[4], 0.3)
+        pp.create_sink(net, j[4], 9.9, in_service=False)
+        pp.create_source(net, j[2], 0.1, scaling=0.5)
+
+        def checks(n):
+            return [("pressure at the junction of two in-service ext grids (mean)", n.res_junction.at[j[0], "p_bar"], 5.2, 1e-9),
+                    ("mass flow of the active flow controller", n.res_flow_control.at[0, "mdot_from_kg_per_s"], 0.8, 1e-7),
+                    ("pressure at the controlled junction", n.res_junction.at[j[5], "p_bar"], 2.5, 1e-6),
+                    ("sink result = mdot x scaling", n.res_sink.at[0, "mdot_kg_per_s"], 0.9, 1e-12),
+                    ("source result = mdot x scaling", n.res_source.at[0, "mdot_kg_per_s"], 0.05, 1e-12)]
+        run("water/ext-grids+flow-control+pressure-control", net, checks, use_numba=use_numba)
+
+    # 2. circulation pumps (mass and pressure), one of the table out of service, sharing / not sharing a flow junction
+    def loop(use_numba, kind):
+        net = pp.create_empty_network(fluid="water")
+        jf, j1, j2, jr, jx = pp.create_junctions(net, 5, pn_bar=5, tfluid_k=350., index=[4, 11, 2, 8, 6])
+        if kind == "pressure":
+            pp.create_circ_pump_const_pressure(net, jr, jf, p_flow_bar=5., plift_bar=1.5, t_flow_k=360.)
+            pp.create_circ_pump_const_pressure(net, jr, jf, p_flow_bar=7., plift_bar=3.0, t_flow_k=360., in_service=False)
+        else:
+            pp.create_circ_pump_const_mass_flow(net, jr, jf, p_flow_bar=5., mdot_flow_kg_per_s=1.2, t_flow_k=360.)
+            pp.create_circ_pump_const_mass_flow(net, jr, jf, p_flow_bar=7., mdot_flow_kg_per_s=9., t_flow_k=360., in_service=False)
+        pp.create_pipe_from_parameters(net, jf, j1, 0.3, 100.)
+        pp.create_heat_exchanger(net, j1, j2, 20000., 100.)
+        pp.create_pipe_from_parameters(net, j2, jr, 0.3, 100.)
+        pp.create_flow_control(net, j1, j2, 0.4)
+
+        def checks(n):
+            out = [("pressure at the flow junction", n.res_junction.at[jf, "p_bar"], 5.0, 1e-9)]
+            if kind == "pressure":
+                out.append(("lift between return and flow junction", n.res_junction.at[jf, "p_bar"] - n.res_junction.at[jr, "p_bar"], 1.5, 1e-5))
+            else:
+                out.append(("mass flow of the circulation pump", n.res_circ_pump_mass.at[0, "mdot_from_kg_per_s"], 1.2, 1e-7))
+            return out
+        run("loop/circ-pump-%s" % kind, net, checks, use_numba=use_numba, mode="sequential")
+
+    # 3. gas net: two pumps of different type (the first out of service), compressor, different junction temperatures
+    def gas(use_numba):
+        net = pp.create_empty_network(fluid="lgas")
+        j = list(pp.create_junctions(net, 6, pn_bar=1.0, tfluid_k=[290., 300., 310., 320., 330., 340.]))
+        pp.create_ext_grid(net, j[0], p_bar=1.0, t_k=290.)
+        pp.create_pump(net, j[0], j[1], "P1", in_service=False)
+        pp.create_pump(net, j[0], j[1], "P2")
+        pp.create_pipe_from_parameters(net, j[1], j[2], 0.5, 200.)
+        pp.create_compressor(net, j[2], j[3], pressure_ratio=1.3)
+        pp.create_pipe_from_parameters(net, j[3], j[4], 0.5, 200.)
+        pp.create_sink(net, j[4], 0.02)
+
+        def checks(n):
+            pa = 1.01325
+            pf, pt = n.res_junction.at[j[2], "p_bar"] + pa, n.res_junction.at[j[3], "p_bar"] + pa
+            std = n.std_types["pump"]["P2"]
+            fluid = n.fluid
+            p_in = n.res_junction.at[j[0], "p_bar"] + pa
+            t_in = n.res_junction.at[j[0], "t_k"]
+            vdot_in = n.res_pump.at[1, "mdot_from_kg_per_s"] / fluid.get_density(273.15) *                 (1.01325 * t_in * fluid.get_compressibility(p_in) / (p_in * 273.15))
+            return [("compressor pressure ratio (absolute pressures)", pt / pf, 1.3, 1e-4),
+                    ("lift of the in-service pump = its own curve at the inlet volume flow", n.res_pump.at[1, "deltap_bar"],
+                     float(std.get_pressure(float(vdot_in))), 1e-4)]
+        run("gas/pumps+compressor", net, checks, use_numba=use_numba)
+
+    for use_numba in (False, True):
+        water(use_numba)
+        loop(use_numba, "pressure")
+        loop(use_numba, "mass")
+        gas(use_numba)
+    return {"ok": witness is None, "cases": cases, "witness": witness}
+
+
 def main():
     inp = json.load(sys.stdin)
     fn = globals()[inp["what"]]
